@@ -9,7 +9,7 @@ FNS = "Rename,Remove,RemoveAll,Mkdir,MkdirAll,MkdirTemp,CreateTemp,Create,OpenFi
 SPEC = dict(
     level="proof",
     harness=dict(pkg_dir="search", run="TestVerifC12$", files=["search/zz_verif_c12_test.go"],
-                 n_quick=14, n_thorough=120),
+                 n_quick=14, n_thorough=60),
     runner=dict(imports=["From ZV Require Import Lib.Base Model.FsOps Model.FinishOps."], case_type="c12case",
                 mismatch_fn="c12_mismatches", shard=300),
     rule="REAL index builds of one repository through index.Builder (working tree's index/builder.go + index/tombstones.go with "
